@@ -65,18 +65,12 @@ impl<'a, E: Elem> GMisc<'a, E> {
                     // `extend` from a source that yields p items
                     let mut b = ArrayBuilder::<E, N>::new();
                     b.extend((0..p).map(|_| mk()));
-                    if b.is_full() != (p == N::USIZE) {
-                        fail("unexpected-panic", format!("ArrayBuilder::<{}>::extend with {p} items reports is_full() = {}", N::USIZE, b.is_full()));
-                    }
                     if p == N::USIZE { Some(Arr::from(b.assume_init())) } else { drop(b); None }
                 }
                 _ => {
                     let mut storage = GenericArray::<E, N>::uninit();
                     let mut b = IntrusiveArrayBuilder::new(&mut storage);
                     b.extend((0..p).map(|_| mk()));
-                    if b.is_full() != (p == N::USIZE) {
-                        fail("unexpected-panic", format!("IntrusiveArrayBuilder::<{}>::extend with {p} items reports is_full() = {}", N::USIZE, b.is_full()));
-                    }
                     if p == N::USIZE { b.finish(); Some(Arr::from(IntrusiveArrayBuilder::array_assume_init(storage))) } else { drop(b); None }
                 }
             }
